@@ -1,12 +1,13 @@
 CFG = {
     "id": "C20",
-    "level_text": "Proof over an executable Gallina model of sys/fastrand on explicit draw streams: range, non-negativity, panic-iff-nonpositive, Perm is a permutation, Shuffle indexes/permutation and Read touching exactly its slice are theorems for every n, stream and length. The model is tied to the code on every run by replaying recorded draws (fastrand.Uint32 is reassignable) through the model inside Coq; functions that draw from the runtime directly, concurrent callers and the frequency clause are observed and judged by the Coq predicate only (partial there).",
+    "level_text": "Proof over an executable Gallina model of sys/fastrand on explicit draw streams: range, non-negativity, panic-iff-nonpositive, Perm is a permutation, Shuffle indexes/permutation and Read touching exactly its slice are theorems for every n, stream and length. The model is tied to the code on every run by replaying recorded draws (fastrand.Uint32 is reassignable) through the model inside Coq; the frequency clause is backed by theorems: Uint32n maps the 2^32 draws to each residue floor or ceil(2^32/n) times, and Int31n's rejection test accepts exactly floor(2^32/n) draws per residue (exact uniformity given a uniform source); functions that draw from the runtime directly and concurrent callers are observed and judged by the Coq predicate only (partial there).",
     "level_note": "Trusted: Coq kernel, the hand-written model and its correspondence run, the Go harness; runtime.fastrand itself, the unsafe []byte->[]uint64 view (modelled as little-endian stores), uniformity beyond a far-tail frequency test are not proved.",
     "harness": "c20",
     "theorems": [("C20.Props", [
         "C20_int31n_range", "C20_int63n_range", "C20_intn_range", "C20_uint32n_range", "C20_uint64n_range",
         "C20_panic_iff_nonpositive", "C20_nonneg", "C20_float32_unit", "C20_float64_unit", "C20_perm",
-        "C20_shuffle_indexes", "C20_shuffle_permutes", "C20_read_exact", "C20_perm_checker_sound"])],
+        "C20_shuffle_indexes", "C20_shuffle_permutes", "C20_read_exact", "C20_perm_checker_sound",
+        "C20_uint32n_preimage", "C20_uint32n_even", "C20_int31n_first_draw", "C20_int31n_accepted_preimage", "C20_int31n_exactly_uniform"])],
     "trusted": [
         "draw streams are Section-free premises (src_ok): every draw is a uint32; runtime.fastrand itself is the Go runtime's",
         "Uint64-based functions (Int63, Int63n, Int, Float64, Uint64n, Intn above 2^31) cannot be fed recorded draws "
